@@ -617,10 +617,23 @@ class Tr:
                 rest_in = self.block(rest, env2, after)
                 return (f"(match {env[x][0]} with\n    | {ctor} {x} => {self.block(s.body, env2, rest_in)}\n"
                         f"    | _ => {self.block(s.orelse, env, rest_t)}\n    end)")
+            # `if x is not None and x.utcoffset() is not None: x = x.astimezone(timezone.utc)` on a window edge of
+            # Bucket.get: in this vocabulary an edge is its INSTANT, which the conversion keeps; remembered, because
+            # only a UTC reading may be rounded field-wise here (k_window translates the statement with the offset)
+            import k_window
+            nm = k_window.utc_normalisation(s)
+            if nm is not None:
+                if not (nm in env and env[nm] == (nm, "option Z")) or nm in getattr(self, "utc_edges", set()):
+                    self.fail(f"UTC conversion of {nm}", s)
+                k_window.check_timezone_utc(self.repo)
+                self.utc_edges = getattr(self, "utc_edges", set()) | {nm}
+                return self.block(rest, env, after)
             # `if <optional instant>:` re-binding it: the window rounding of Bucket.get (k_window's translation)
             if isinstance(t, ast.Name) and t.id in env and env[t.id][1] == "option Z" and not s.orelse \
                     and env[t.id][0] == t.id:
-                import k_window
+                if t.id not in getattr(self, "utc_edges", set()):
+                    self.fail(f"{t.id} is rounded on the fields of the caller's reading (no conversion to UTC before "
+                              "it): not a function of the instant (sub-millisecond utcoffsets, fold)", s)
                 body = [x for x in s.body if not self.skip.skippable(x)]
                 txt = k_window.round_block(body, t.id)
                 return (f"(let {t.id} := match {t.id} with Some {t.id} => Some ({txt}) | None => None end in\n"
